@@ -1,5 +1,6 @@
 /- Root of the PV library: everything `lake build PV` must check. -/
 import PV.Props.C01
+import PV.Props.C02
 import PV.Props.C04
 import PV.Props.C05
 import PV.Props.C06
@@ -9,7 +10,9 @@ import PV.Props.C10
 import PV.Props.C12
 import PV.Props.C13
 import PV.Props.C14
+import PV.Props.C15
 import PV.Props.C16
 import PV.Props.C17
+import PV.Props.C19
 import PV.Props.C20
 import PV.Drv.All
